@@ -273,10 +273,13 @@ func (t *taskManager) executor(currentTask *task) {
 			currentTask.output = nil
 			currentTask.err = safe.NewPanicErr(panicInfo, debug.Stack())
 		}
+		verifPoint("exec.returned", t, currentTask)
 		t.mu.Lock()
 		t.l.PushBack(currentTask)
+		verifPoint("exec.pushed", t, currentTask)
 		t.updateChan()
 		t.mu.Unlock()
+		verifPoint("exec.unlocked", t, currentTask)
 	}()
 
 	ctx := initNodeCallbacks(currentTask.ctx, currentTask.nodeKey, currentTask.call.action.nodeInfo, currentTask.call.action.meta, t.opts...)
@@ -306,10 +309,12 @@ func (t *taskManager) submit(tasks []*task) error {
 	}
 	for _, currentTask := range tasks {
 		t.num += 1
+		verifPoint("submit.async", t, currentTask)
 		go t.executor(currentTask)
 	}
 	if syncTask != nil {
 		t.num += 1
+		verifPoint("submit.sync", t, syncTask)
 		t.executor(syncTask)
 	}
 	return nil
@@ -331,10 +336,13 @@ func (t *taskManager) waitOne() (*task, bool) {
 		return nil, false
 	}
 	t.num--
+	verifPoint("wait.before", t, nil)
 	ta := <-t.done
+	verifPoint("wait.received", t, ta)
 	t.mu.Lock()
 	t.updateChan()
 	t.mu.Unlock()
+	verifPoint("wait.refilled", t, ta)
 
 	if ta.err != nil {
 		return ta, true
@@ -364,6 +372,7 @@ func (t *taskManager) updateChan() {
 	for t.l.Len() > 0 {
 		select {
 		case t.done <- t.l.Front().Value.(*task):
+			verifPoint("chan.handoff", t, t.l.Front().Value.(*task))
 			t.l.Remove(t.l.Front())
 		default:
 			return
